@@ -109,7 +109,31 @@ def judge(rec, opts):
         if text != wanto:
             out.append((f"translated-output:{shape(rec)}", {"src": src, "n": n, "want": wanto, "got": text}))
             break
+    # whatever the count turns out to be - nil, missing, text, a fraction, a negative number, an array, a boolean -
+    # a lookup the render makes is one the extraction reported: same family, context, message id and plural form
+    literal_only = all(it.get("ctx") != "var" and it.get("plural") != "var" and not (it["k"] == "filter" and it.get("left") == "var")
+                       for it in rec["items"])
+    if not out and literal_only:
+        reported = {(e["msg"]["fam"], e["msg"]["ctx"], e["msg"]["id"], e["msg"]["plural"]) for e in got}
+        for label, extra in CONFUSED_COUNTS:
+            cat = Catalog()
+            try:
+                t.render(m="Hello", pl="Hellos", cx="vctx", yes=True, no=False, translations=cat, **extra)
+            except LiquidError:
+                continue
+            for c in cat.calls:
+                # (programs with a message id, context or plural computed from data are left out: such a lookup cannot be
+                # reported statically - spec/UNSPECIFIED.md); the messages reported for this id and context:
+                same = {(f, pl) for f, cx, i, pl in reported if i == c["id"] and cx == c["ctx"]}
+                if same and (c["fam"], c["plural"]) not in same:
+                    out.append((f"lookup-not-extracted:count-{label}:{shape(rec)}",
+                                {"src": src, "count": label, "call": c, "extracted": sorted(reported)}))
+                    return out
     return out
+
+
+CONFUSED_COUNTS = (("nil", {"n": None}), ("missing", {}), ("text", {"n": "many"}), ("fraction", {"n": 2.5}),
+                   ("negative", {"n": -3}), ("array", {"n": [1, 2]}), ("true", {"n": True}), ("numeric-text", {"n": "2"}))
 
 
 def _judge(rec, opts):
